@@ -222,3 +222,26 @@ Definition td_withheld : list event :=
    ERx 2 (Publish false td_q2 2); ESave 2 Incoming (Publish false td_q2 2) true; ETx 2 (Pubrec 2) true true;
    ERx 2 (Pubrel 1); ELookup 2 Incoming 1 (LRes (Some (Publish false td_q2 1))); EPub 2 td_q2 (Some 11); EPubRet 2 true;
    ERx 2 (Pubrel 2); ELookup 2 Incoming 2 (LRes (Some (Publish false td_q2 2))); EPub 2 td_q2 (Some 12); EPubRet 2 true].
+
+(* ------------------------------------------------------ C15_resend_first *)
+
+(* the seeded reordering: on the resumed connection the dequeuer is started before the
+   stored packets are re-sent and a fresh PUBLISH overtakes the retransmission *)
+Definition td_bad_rf_overtake : list event :=
+  [ENewConn; ERx 5 (Connect td_conn); EAuth 5 AOk; ESetup 5 (SOk true false 2 10 10); ETx 5 (Connack true 0) false true;
+   EDeqCall 6; EDeqRet 6 (QMsg td_q1b false); ENextId 6 3; ESave 6 Outgoing (Publish false td_q1b 3) true;
+   ETx 6 (Publish false td_q1b 3) true true;
+   EAll 5 Outgoing (Some [Pubrel 1; Publish false td_q1 2]); ETx 5 (Pubrel 1) true true;
+   ETx 5 (Publish true td_q1 2) true true; ERestore 5 true].
+Definition td_bad_rf_order : list event :=       (* re-sent in another order than listed *)
+  [ENewConn; ESetup 5 (SOk true false 2 10 10); ETx 5 (Connack true 0) false true;
+   EAll 5 Outgoing (Some [Pubrel 1; Publish false td_q1 2]); ETx 5 (Publish true td_q1 2) true true].
+Definition td_bad_rf_early : list event :=       (* Restore before the list is exhausted *)
+  [ENewConn; ESetup 5 (SOk true false 2 10 10); ETx 5 (Connack true 0) false true;
+   EAll 5 Outgoing (Some [Pubrel 1]); ERestore 5 true].
+
+Lemma td_rf_ok :
+  forallb c15_resend_first [td_in_q1; td_in_q2; td_deq; td_resume; td_life; td_fwd] = true /\
+  forallb (fun es => negb (c15_resend_first es)) [td_bad_rf_overtake; td_bad_rf_order; td_bad_rf_early] = true /\
+  forallb (fun es => negb (accepted es)) [td_bad_rf_overtake; td_bad_rf_order; td_bad_rf_early] = true.
+Proof. vm_compute. repeat split; reflexivity. Qed.
